@@ -30,17 +30,17 @@ CONSTANTS Kinds,        \* font kinds explored: subset of FontKinds below
           NameMemo,     \* TRUE: the library remembers that it already looked for the name table (repair of F6)
           Emit
 
-FontKinds == {"good", "noname", "badlabel", "badglyph", "compressed", "awami", "badsilf", "nocmap", "nogloc", "badlz4", "badlz4s", "hiddenfeat", "name1", "badfeat", "badfeat2", "badsill", "underflow", "emptyname", "emptyglyf"}
+FontKinds == {"good", "noname", "badlabel", "badglyph", "compressed", "awami", "badsilf", "nocmap", "nogloc", "badlz4", "badlz4s", "hiddenfeat", "name1", "badfeat", "badfeat2", "badsill", "underflow", "emptyname", "emptyglyf", "fmt12", "charisfast"}
 PreloadGlyphs(o) == (o \div 2) % 2 = 1
 CacheCmap(o)     == (o \div 4) % 2 = 1
 PreloadAll(o)    == PreloadGlyphs(o) /\ CacheCmap(o)
 \* a font with one unloadable glyph is refused only when all glyphs are loaded up front
-Loads(k, o) == k \in {"good", "noname", "badlabel", "compressed", "awami", "hiddenfeat", "name1", "underflow", "emptyname"} \/ (k = "badglyph" /\ ~PreloadGlyphs(o))
+Loads(k, o) == k \in {"good", "noname", "badlabel", "compressed", "awami", "hiddenfeat", "name1", "underflow", "emptyname", "fmt12", "charisfast"} \/ (k = "badglyph" /\ ~PreloadGlyphs(o))
 \* "name1": the name table is of format 1, which the library does not read (TtfUtil::CheckTable): fetched, given back,
 \* and from then on as good as absent - on every kind of face (staged as a file by the harness)
 \* "underflow": tests/fonts/underflow.ttf - loads, but some texts make a rule program fail at run time: gr_make_seg
 \* returns NULL for them (a result like any other: same every time, nothing left allocated)
-OnDisk(k) == k \in {"good", "compressed", "awami", "name1", "underflow"}
+OnDisk(k) == k \in {"good", "compressed", "awami", "name1", "underflow", "fmt12", "charisfast"}
 HasName(k) == k # "noname"
 
 \* tables the glyph loader keeps borrowed while it is alive (a compressed Glat is replaced by library memory)
